@@ -364,6 +364,17 @@ mut("c02-clear-before-generation-only", "C02", B, """                    if let 
                         if alloc_info.max_count < 2 { alloc_info.clear(); }
 """)
 
+# ---- C13
+F = "src/config/filter.rs"
+mut("c13-index-gt-start", "C13", F, "return index >= inclusive_start;", "return index > inclusive_start;")
+mut("c13-no-match-always-true", "C13", F, "filters.len() == inclusive_start", "filters.len() >= inclusive_start")
+mut("c13-parent-path-no-sep", "C13", "src/entry/tree.rs", 'format!("{parent_path}::{}", subtree.display_name());', 'format!("{parent_path}:{}", subtree.display_name());')
+mut("c13-args-filter-leaf-path", "C13", "src/entry/tree.rs", 'filter(&format!("{subtree_path}::{arg}"))', 'filter(&format!("{subtree_path}"))')
+mut("c13-raw-name-in-path", "C13", "src/entry/tree.rs", """                let subtree_path: &str = if parent_path.is_empty() {
+                    subtree.display_name()""", """                let subtree_path: &str = if parent_path.is_empty() {
+                    subtree.raw_name()""")
+mut("c13-splitvec-insert-order", "C13", "src/util/split_vec.rs", "let value_slot = if after_split { last_ptr } else { split_ptr };", "let value_slot = if after_split || old_split == 2 { last_ptr } else { split_ptr };")
+
 def sh(cmd, **kw):
     return subprocess.run(cmd, shell=True, capture_output=True, text=True, **kw)
 
